@@ -502,6 +502,7 @@ func runPath(prog *ssa.Program, sh *Shared, fn *ssa.Function, prefix []int32, so
 						v := p.violation(nil, "panic", "panic.runtime@"+funcShort(e.fn), res.Msg)
 						v.Pos = shortPos(e.pos)
 						v.Func = e.fn
+						v.Stack = e.stack
 						v.Trace = p.model()
 						res.Violations = append(res.Violations, v)
 					}
